@@ -3,8 +3,28 @@ CHECKS["C13"] = dict(
     pkg="internal/verif/c06",
     packages=[("internal/verif/c06", "harness/aspen/c06")],
     level="exploration",
-    rule="draft",
-    assumptions=[],
-    technique="draft", level_text="draft", level_note="draft",
-    tests=[dict(name="TestC13", quick=dict(cases=100, shards=1), thorough=dict(cases=1000, shards=8, timeout=1500))],
+    rule=("Same simulation and script language as C06 (2-3 real kv.Open nodes behind harness transports; local transactions, synthetic "
+          "leaseholders, harness-produced gossip with loss/duplication/held feedback, redelivery whole/split/reversed/doubled/merged, "
+          "restart with recovery, partitions), weighted towards redelivery. Every node carries 2-3 subscribers from the start and again "
+          "after each restart (DB.OnChange, NewObservable().OnChange, NewObservable(IgnoreHostLeaseholder).OnChange) and scripts attach "
+          "more in the middle of traffic. Deliveries are paced one request at a time; after each, a barrier marker pushed through the same "
+          "FIFO ingress must reach every subscriber, so all notifications due are in. The executor keeps the history of stored digests per "
+          "node and derives, per subscriber, the multiset of changes that altered the stored state while it was attached (accepted gossip "
+          "operations in request order; local and forwarded writes, which the filtered observable must hide). Judged at each stop and at the "
+          "end: more notifications than state changes for a (key, value) -> notified-twice; a notified change whose operation was rejected -> "
+          "stale-notification; fewer -> missed-notification; a host-led change at the filtered subscriber or a remote change hidden from it "
+          "-> filter-mismatch. Sets carry a unique value per operation, so (key, value) identifies (key, version); deletes are counted per key. "
+          "Non-trivial = a case with at least one duplicate delivery and at least one stale (losing) delivery; distinct by script hash."),
+    assumptions=["recovery at start-up writes to the engine before any subscriber can attach (kv.Open returns afterwards); those changes are outside the oracle",
+                 "subscribers return immediately and at most a handful of notifications are in flight per node, far below the 64-entry handler queue and the 500-entry relay",
+                 "state divergences that belong to C06 (digest regressions, non-convergence) are counted as classes here, not reported",
+                 "delete notifications carry only the key: duplicates and omissions among deletes of one key are detected by count"],
+    technique=("model-based, schedule-controlling property test (rapid): real kv.Open nodes with real observers behind harness-owned transports; "
+               "expected notifications derived from the per-node history of stored digests; FIFO barrier instead of timeouts to decide completeness"),
+    level_text=("Generated-input search over redelivery patterns, delivery orders, restarts and subscription times on 2-3 real kv nodes with 2-3+ "
+                "subscribers each; exact multiset comparison of notifications per subscriber. Sampled, not exhaustive; no absence claim."),
+    level_note=("Trusted: the harness transports and barrier, the stored-digest model (re-read from the engine after every step), rapid, the Go "
+                "toolchain. Slow subscribers (relay overflow) are outside the property's 'keeps up' condition and not generated."),
+    tests=[dict(name="TestC13", quick=dict(cases=3000, shards=2, shrinktime="30s"),
+                thorough=dict(cases=7000, shards=16, timeout=1500, shrinktime="120s"))],
 )
